@@ -63,8 +63,8 @@ m("C06", "values-cleared-before-validation", "odml/property.py",
   "        new_value = self._convert_value_input(new_value)\n\n        old_dtype = self._dtype\n",
   "        new_value = self._convert_value_input(new_value)\n        self._values = []\n\n        old_dtype = self._dtype\n")
 m("C06", "merge-check-after-attributes", "odml/section.py",
-  "        self.merge_check(section, strict)\n\n        if self.definition is None and section.definition is not None:\n            self.definition = section.definition\n",
-  "        if self.definition is None and section.definition is not None:\n            self.definition = section.definition\n        self.merge_check(section, strict)\n\n")
+  "        self.merge_check(section, strict)\n\n        # Remember which attributes are taken over, unmerge has to reset them.\n        merged_attrs = []\n        if self.definition is None and section.definition is not None:\n            self.definition = section.definition\n",
+  "        # Remember which attributes are taken over, unmerge has to reset them.\n        merged_attrs = []\n        if self.definition is None and section.definition is not None:\n            self.definition = section.definition\n        self.merge_check(section, strict)\n\n")
 m("C06", "ctor-attaches-before-cardinality", "odml/property.py",
   "        self.val_cardinality = val_cardinality\n\n        # Attach to the parent last: a Property that could not be fully\n        # set up must not end up in the parents child list.\n        self.parent = parent\n",
   "        self.parent = parent\n        self.val_cardinality = val_cardinality\n")
@@ -73,8 +73,8 @@ m("C06", "link-stored-before-merge-check", "odml/section.py",
   "        if self._link is not None:\n")
 # ---- C07
 m("C07", "xml-open-before-render", "odml/tools/xmlparser.py",
-  "        data = str(self)\n\n        with open(filename, \"w\", encoding = \"utf-8\") as file:\n",
-  "        with open(filename, \"w\", encoding = \"utf-8\") as file:\n            data = str(self)\n")
+  "        data = str(self)\n\n        if not local_style and not custom_template:\n",
+  "        file = open(filename, \"w\", encoding=\"utf-8\")\n        file.close()\n        data = str(self)\n\n        if not local_style and not custom_template:\n")
 m("C07", "yaml-skips-validation-errors", "odml/tools/odmlparser.py",
   "        if msg != \"\":\n            msg = \"Resolve document validation errors before saving %s\" % msg\n",
   "        if msg != \"\" and self.parser != 'YAML':\n            msg = \"Resolve document validation errors before saving %s\" % msg\n")
@@ -161,8 +161,8 @@ m("C18", "start-after-lock-released", "odml/terminology.py",
   "        with self._lock:\n            if url in self or url in self.loading:\n                return\n            self._start_loading(url)\n",
   "        with self._lock:\n            if url in self or url in self.loading:\n                return\n            thread = threading.Thread(target=self._load_and_unregister, args=(url,))\n            self.loading[url] = thread\n        thread.start()\n")
 m("C18", "cache-opened-before-fetch", "odml/terminology.py",
-  "        try:\n            data = urllib2.urlopen(url).read()\n            data = data.decode(\"utf-8\")\n        except Exception as exc:\n            print(\"failed loading '%s': %s\" % (url, exc))\n            return\n\n        file_obj = open(cache_file, \"w\")\n",
-  "        file_obj = open(cache_file, \"w\")\n        try:\n            data = urllib2.urlopen(url).read()\n            data = data.decode(\"utf-8\")\n        except Exception as exc:\n            print(\"failed loading '%s': %s\" % (url, exc))\n            return\n\n")
+  "        try:\n            data = urllib2.urlopen(url).read()\n        except Exception as exc:\n            print(\"failed loading '%s': %s\" % (url, exc))\n            return\n\n",
+  "        file_obj = open(cache_file, \"wb\")\n        try:\n            data = urllib2.urlopen(url).read()\n        except Exception as exc:\n            print(\"failed loading '%s': %s\" % (url, exc))\n            return\n\n")
 m("C18", "load-without-lock-check-then-index", "odml/templates.py",
   "            thread = self.loading.get(url)\n            started_here = thread is None\n            if started_here:\n                thread = self._start_loading(url)\n\n        thread.join()\n",
   "            started_here = url not in self.loading\n            if started_here:\n                thread = self._start_loading(url)\n\n        if not started_here:\n            thread = self.loading[url]\n        thread.join()\n")
